@@ -433,7 +433,9 @@ def coerce(v: V, ty: Ty) -> V:
     if ty == TAny:
         if sort_of(v.ty) == z3.IntSort():
             return V(TAny, v.t)
-        raise Unsupported("coerce %s to any" % v.ty)
+        # a value of another representation (None, bytes, tuple, str, ...) stored where Any is declared (e.g. appended to
+        # the list[Any] of tls.pull_list): Any values are opaque, so an unconstrained opaque value is a sound image
+        return V(TAny, z3.FreshConst(z3.IntSort(), "any"))
     if isinstance(v.ty, TOpt) and v.ty.inner == ty:
         # caller must have established non-None; used by narrowing only
         return opt_val(v)
